@@ -36,3 +36,15 @@ TOPO_REQUIRED = [
     ("no guard cells", r"\|g0$"),
     ("guard cells", r"\|g[1-9]$"),
 ]
+
+
+def pytest_contracts_job():
+    """(thorough tier) the pinned test-suite run with the online contracts installed"""
+    return {"name": "pytest-with-contracts", "module": "vmon.jobs.pytest_contracts", "args": {}, "timeout": 3000}
+
+
+def select_contract_records(prop):
+    def select(rec_, monitor):
+        return True
+
+    return select
